@@ -138,7 +138,8 @@ def same_start(a, b, what=""):
     if b.start_time is None:
         check(a.start_time is None, "{}start_time appeared", what)
     else:
-        check(a.start_time is not None and O.T(a.start_time) == O.T(b.start_time), "{}start_time changed: {} vs {}",
+        # "unchanged" up to the resolution of Time: adding a zero offset goes through UTC->TAI->UTC and may move the last bit
+        check(a.start_time is not None and abs(O.T(a.start_time) - O.T(b.start_time)) <= O.time_tol(1), "{}start_time changed: {} vs {}",
               what, a.start_time, b.start_time)
 
 
